@@ -159,6 +159,32 @@ func (g *Generator) snippet(a *asm, kind int, slot uint64) {
 		a.op(opJUMPDEST).push(uint64(loop)).op(opJUMP)
 		a.op(opJUMPDEST)
 		a.b[pos] = byte(len(a.b) - 1)
+	case 16: // BALANCE(word5) -> slot  (touch the second target)
+		word(5)
+		a.op(opBALANCE).push(slot).op(opSSTORE)
+	case 17: // CALL(word5, value = word1) -> slot
+		a.push(0).push(0).push(0).push(0)
+		word(1)
+		word(5)
+		a.op(opGAS, opCALL).push(slot).op(opSSTORE)
+	case 18: // CALL(word5, value = CALLVALUE) -> slot
+		a.push(0).push(0).push(0).push(0)
+		a.op(opCALLVALUE)
+		word(5)
+		a.op(opGAS, opCALL).push(slot).op(opSSTORE)
+	case 19: // CALL(word0, value 0, forwarding the whole calldata) -> slot: the callee sees the same words
+		a.op(opCALLDATASIZE).push(0).push(0).op(0x37) // CALLDATACOPY(0,0,size)
+		a.push(0).push(0).op(opCALLDATASIZE).push(0).push(0)
+		word(0)
+		a.op(opGAS, opCALL).push(slot).op(opSSTORE)
+	case 20: // unconditional REVERT
+		a.push(0).push(0).op(opREVERT)
+	case 21: // CALL(word0, value = CALLVALUE/2, forwarding calldata) -> slot
+		a.op(opCALLDATASIZE).push(0).push(0).op(0x37)
+		a.push(0).push(0).op(opCALLDATASIZE).push(0)
+		a.push(2).op(opCALLVALUE).op(opDIV)
+		word(0)
+		a.op(opGAS, opCALL).push(slot).op(opSSTORE)
 	case 15: // return data of a call copied and stored
 		a.push(0).push(0).push(0).push(0).push(0)
 		word(0)
@@ -176,16 +202,41 @@ func (g *Generator) memWrite(a *asm, bs []byte) {
 	}
 }
 
+// scenario templates: snippet sequences that stress the coupling of the EVM world with the native
+// ledger (touch-then-failing-subcall-then-pay, pay inside a reverting frame, forwarders, ...).
+var templates = [][]int{
+	{16, 4, 18},     // touch w5; call w0 (may fail, tolerated); pay w5 the call value
+	{16, 19, 17},    // touch w5; forward to w0; pay w5
+	{18, 20},        // pay w5 then revert (a "reverter" that moves value first)
+	{17, 20},        // pay w5 (word1) then revert
+	{20},            // plain reverter
+	{21, 18},        // forward half of the value to w0 (with calldata), pay the rest to w5
+	{19, 16, 18, 0}, // forward; touch; pay; count
+	{3, 18, 3},      // self balance; pay; self balance
+	{8, 17, 0},      // create a child with value; pay w5
+	{4, 4, 17},      // two calls to w0 then pay w5
+	{2, 16, 19, 18, 17},
+}
+
 // program returns (init code, runtime code).
 func (g *Generator) program() ([]byte, []byte) {
 	rt := &asm{}
-	n := g.r.Range(2, 6)
-	for i := 0; i < n; i++ {
-		k := g.r.Intn(16)
-		if len(rt.b) > 200 && (k == 10 || k == 11 || k == 14) {
-			k = 0 // jump targets are one byte
+	if g.r.Chance(0.45) {
+		for i, k := range templates[g.r.Intn(len(templates))] {
+			g.snippet(rt, k, uint64(10+i))
 		}
-		g.snippet(rt, k, uint64(10+i))
+	} else {
+		n := g.r.Range(2, 6)
+		for i := 0; i < n; i++ {
+			k := g.r.Intn(22)
+			if len(rt.b) > 180 && (k == 10 || k == 11 || k == 14) {
+				k = 0 // jump targets are one byte
+			}
+			if k == 20 && i < n-1 {
+				k = 17
+			}
+			g.snippet(rt, k, uint64(10+i))
+		}
 	}
 	if g.r.Chance(0.3) {
 		rt.push(uint64(g.r.Intn(1 << 30))).push(0).op(opMSTORE).push(32).push(0).op(opRETURN)
@@ -217,13 +268,13 @@ func (g *Generator) calldata() []byte {
 	}
 	var tgt Addr
 	switch g.r.Intn(8) {
-	case 0, 1:
+	case 0, 1, 2, 3:
 		if len(w.M.Contracts) > 0 {
 			tgt = w.M.Contracts[g.r.Intn(len(w.M.Contracts))]
 			break
 		}
 		fallthrough
-	case 2, 3, 4:
+	case 4:
 		tgt = w.Actors[g.pickActor()].Addr
 	case 5:
 		tgt = Addr{19: byte(g.r.Range(1, 9))} // precompile
@@ -245,7 +296,22 @@ func (g *Generator) calldata() []byte {
 	flag(0.15)
 	flag(0.08)
 	flag(0.05)
-	if g.r.Chance(0.1) {
+	var t2 Addr
+	switch g.r.Intn(6) {
+	case 0:
+		g.freshCtr++
+		t2 = freshAddr(w.Tr.Seed, g.freshCtr)
+	case 1:
+		if len(w.M.Contracts) > 0 {
+			t2 = w.M.Contracts[g.r.Intn(len(w.M.Contracts))]
+			break
+		}
+		fallthrough
+	default:
+		t2 = w.Actors[g.pickActor()].Addr
+	}
+	word(t2[:])
+	if g.r.Chance(0.05) {
 		return out[:g.r.Intn(len(out))]
 	}
 	return out
